@@ -4,6 +4,6 @@ CONSTANTS
   MaxCap = 4
   Rich = TRUE
 SPECIFICATION Spec
-INVARIANTS NotStuck Bounded Agree LinesClosedForm ValidGen RoundTrip CutFastq CutFasta LinesKeep LinesAgree
+INVARIANTS NotStuck Bounded Agree LinesClosedForm ValidGen RoundTrip CutFastq CutFasta LinesKeep LinesAgree SeekSniff SectionLemma
 PROPERTY Progress
 CHECK_DEADLOCK FALSE
